@@ -16,6 +16,20 @@ Definition outcome_matches (out : outcome) (res_same res_none : bool) : bool :=
   | OMergedKeep _ | OMergedEqual _ | OReplaced => negb res_same && negb res_none
   end.
 
+(* hwloc_replace_linked_object since /repo 6dba2e5: the object that stays in the topology keeps its gp_index (Topo/Insert.v
+   gives it the whole payload of the new Group, gp_index included; the theorems about it never look at gp_index).  The
+   gp_index that disappeared from CUR is put back at the place where the new one appeared. *)
+Definition gps_of (o : obj) : list (option N) := map (fun c => o_gp (odata c)) (flatten o).
+Definition replaced_keeps_gp (out : outcome) (newd : dobj) (cur cur' : obj) : list (option N * (nat * nat * nat * nat)) :=
+  match out with
+  | OReplaced =>
+      match filter (fun g => negb (existsb (opt_N_eqb g) (gps_of cur'))) (gps_of cur) with
+      | [g_old] => map (fun '(g, k) => (if opt_N_eqb g (o_gp newd) then g_old else g, k)) (shape_of cur')
+      | _ => shape_of cur'
+      end
+  | _ => shape_of cur'
+  end.
+
 Definition insert_tie (d10 d11 : dump) (ins root : N) (dms : list N) (dm_new res_same res_none : bool) : bool :=
   match tree_of_dump d10, get d10 ins, tree_of_dump d11 with
   | Some t10, Some newd, Some t11 =>
@@ -23,7 +37,7 @@ Definition insert_tie (d10 d11 : dump) (ins root : N) (dms : list N) (dm_new res
       | Some cur =>
           let '(cur', out) := insert_by_cpuset dms dm_new cur (Obj newd [] [] [] []) in
           match find_obj (fun o => opt_N_eqb (o_gp (odata o)) (o_gp (odata cur))) t11 with
-          | Some cur11 => shape_eqb (shape_of cur') (shape_of cur11) && outcome_matches out res_same res_none
+          | Some cur11 => shape_eqb (replaced_keeps_gp out newd cur cur') (shape_of cur11) && outcome_matches out res_same res_none
           | None => false
           end
       | None => false
